@@ -109,8 +109,18 @@ func (r *Reg) RegisterNode(id, policy string) string {
 	if r.CloseErrIDs[id] {
 		n.CloseErr = fmt.Errorf("close of %s fails", id)
 	}
+	closesBefore := r.closes()
 	err := r.B.RegisterNode(el.NodeID(id), n.AsNode(), polOpt(policy, true)...)
 	r.LastFailed = err != nil
+	// re-registering a node id affects only pipelines registered afterwards: an object that a registered
+	// pipeline still uses must not be closed by it (what happens to an object nothing uses is not judged)
+	for _, p := range r.MPipes {
+		for _, o := range p.Objs {
+			if o.Closes != closesBefore[o] {
+				return fmt.Sprintf("RegisterNode(%q) closed %s, which the registered pipeline %s/%s still uses", id, r.NameOf(o), p.Type, p.ID)
+			}
+		}
+	}
 	wantErr := id == "" || !validPolicy(policy)
 	if m, exists := r.MNodes[id]; exists && m.Policy == "deny" {
 		wantErr = true
